@@ -379,7 +379,7 @@ def _unary(name, method):
     def f(x, *a, **k):
         if not core.active():
             return realf(x, *a, **k)
-        return _elementwise(name, realf, x, lambda e: getattr(R.lift(e) if not isinstance(e, (R,)) else e, method)()
+        return _elementwise(name, realf, x, lambda e: getattr(e if isinstance(e, R) or hasattr(e, 't') else R.lift(e), method)()
                             if not isinstance(e, BV) else _bv_unary(e, method))
     f.__name__ = name
     return f
@@ -459,6 +459,26 @@ def arctan2(y, x):
     if core.active() and (_has_sym_content(y) or _has_sym_content(x)):
         raise Unsupported('arctan2 of symbolic values')
     return _np.arctan2(y, x)
+
+
+def clip(a, a_min=None, a_max=None, **kw):
+    """numpy.clip on symbolic content: IEEE select for binary64 terms, path decisions for reals"""
+    if not (core.active() and (isinstance(a, Sym) or (is_objarr(a) and _has_sym_content(a)))) or kw or a_min is None or a_max is None:
+        return _np.clip(a, a_min, a_max, **kw)
+    from . import fp
+
+    def one(e):
+        if isinstance(e, fp.F64):
+            return fp.clip(e, a_min, a_max)
+        # reals: decide the two comparisons on the path (as numpy's object loop would); a select term
+        # inside later non-linear queries cost nlsat far more than the two extra decisions
+        e = e if isinstance(e, Sym) else R.lift(e)
+        if builtins.bool(e < a_min):
+            return R.lift(a_min)
+        if builtins.bool(e > a_max):
+            return R.lift(a_max)
+        return e
+    return _elementwise('clip', None, a, one)
 
 
 def minimum(a, b):
@@ -1124,7 +1144,7 @@ _OVER = {
     'floor': floor, 'ceil': ceil, 'sqrt': sqrt, 'absolute': absolute, 'abs': absolute, 'fabs': fabs,
     'isfinite': isfinite, 'isnan': isnan, 'arctan2': arctan2, 'minimum': minimum, 'maximum': maximum,
     'fmod': fmod, 'where': where, 'interp': interp, 'median': median, 'polyval': polyval,
-    'std': std, 'var': var, 'mean': mean, 'eye': eye,
+    'std': std, 'var': var, 'mean': mean, 'eye': eye, 'clip': clip,
 }
 for _n in _TRANS:
     _OVER[_n] = _transcendental(_n)
